@@ -808,6 +808,19 @@ func (g *srvGen) next() ([]byte, []arpResp, *simClient, byte) {
 			sid = c.selfIP + 1
 		}
 		m = cl.msg(3, flags, 0, wopt{50, u32b(ip)}, wopt{54, u32b(sid)})
+		if g.r2 != nil && g.r2.Intn(6) == 0 {
+			// a REQUEST that names this server but no address, or one of the wrong length, or an ill-formed server identifier
+			switch g.r2.Intn(4) {
+			case 0:
+				m = cl.msg(3, flags, 0, wopt{54, u32b(sid)})
+			case 1:
+				m = cl.msg(3, flags, 0, wopt{50, u32b(ip)[:3]}, wopt{54, u32b(sid)})
+			case 2:
+				m = cl.msg(3, flags, 0, wopt{50, append(u32b(ip), 0)}, wopt{54, u32b(sid)})
+			case 3:
+				m = cl.msg(3, flags, 0, wopt{50, u32b(ip)}, wopt{54, append(u32b(sid), 1)})
+			}
+		}
 	case k < 10: // INIT-REBOOT
 		kind = 3
 		ip := cl.leased
